@@ -249,6 +249,7 @@ type session struct {
 	all       []op
 	nextTok   int
 	bare      bool
+	count     func(string)
 	updated   bool // the previous operation was Update: a bare Commit (commit0) may follow
 }
 
@@ -274,6 +275,18 @@ func newSession(na, nk int, bare bool) *session {
 	s.live = append(s.live, o)
 	s.all = append(s.all, o)
 	return s
+}
+
+func bucket(n int) string {
+	switch {
+	case n == 0:
+		return "0"
+	case n <= 3:
+		return "1-3"
+	case n <= 9:
+		return "4-9"
+	}
+	return "10+"
 }
 
 func must(err error) {
@@ -478,6 +491,22 @@ func (s *session) apply(o op) string {
 	case "roll":
 		must(s.bs.Rollback(s.snaps[o.a]))
 		rec := s.snapRecs[o.a]
+		if s.count != nil {
+			n, inner := len(s.live)-rec.live, 0
+			for _, r := range s.snapRecs[o.a+1:] {
+				if r.valid {
+					inner++
+				}
+			}
+			s.count(fmt.Sprintf("roll-reverts-ops=%s", bucket(n)))
+			s.count(fmt.Sprintf("roll-discards-inner-snapshots=%s", bucket(inner)))
+			if len(s.ref.cached) > len(rec.ref.cached) {
+				s.count("roll-drops-contract-staged-later")
+			}
+			if len(rec.ref.cached) > 0 {
+				s.count("roll-with-staged-storages")
+			}
+		}
 		s.ref = rec.ref.clone()
 		s.invalidateAfter(rec.time)
 		s.killHandles()
@@ -944,6 +973,7 @@ func (g *gen) fail(what string, ops []op) {
 
 func (g *gen) start(na, nk int) *session {
 	s := newSession(na, nk, false)
+	s.count = g.run.Count
 	rd := s.read()
 	ex, _ := s.exports(rd)
 	g.run.Op(s.all[0].String(), "ok | "+rd.line()+" | X "+ex, false)
@@ -1005,6 +1035,7 @@ func (g *gen) exhaustive(na, nk, depth int, withC bool, sample func(level int) b
 			}
 		}
 		s.bare = false
+		s.count = g.run.Count
 		return s
 	}
 	walk = func(level int) {
